@@ -71,7 +71,9 @@ fn call<const N: usize>(q: &quill::tree::mappings::Mappings<N, ()>, ns: &[String
 
 fn case<const N: usize>(rng: &mut Rng, rep: &mut Report, cfg: &GenCfg) {
     let m = gen::gen_maps(rng, &cfg.clone().with_n(N));
-    let q = maps::to_quill::<N, ()>(&m, &mut Ins::Shuffle(&mut rng.fork())).expect("expressible");
+    let mut q = maps::to_quill::<N, ()>(&m, &mut Ins::Shuffle(&mut rng.fork())).expect("expressible");
+    // the comment of the mapping set itself (no file format carries it, callers set the public field): "comments untouched"
+    if rng.chance(1, 3) { q.javadoc = Some(quill::tree::mappings::JavadocMapping(format!("set-level comment {}\nsecond line", rng.below(1000)))); rep.count("set_level_comment.present"); }
     let mapped: BTreeSet<&str> = m.classes.keys().map(|s| s.as_str()).collect();
     let (mut d_mapped, mut d_unmapped, mut d_array) = (false, false, false);
     for c in m.classes.values() { for (_, d) in c.fields.keys().chain(c.methods.keys()) {
@@ -93,7 +95,10 @@ fn case<const N: usize>(rng: &mut Rng, rep: &mut Report, cfg: &GenCfg) {
             Err(pi) => { rep.violation(format!("C08 panic {}", pi.site()), json!({"panic": pi.message, "input": input()})); continue; }
             Ok(r) => r,
         };
-        if let Ok(r) = &observed_q { maps::watch(rep, "C08", "reorder", r, input); }
+        if let Ok(r) = &observed_q {
+            maps::watch(rep, "C08", "reorder", r, input);
+            if r.javadoc.as_ref().map(|j| &j.0) != q.javadoc.as_ref().map(|j| &j.0) { rep.violation(format!("C08 {}: comment of the mapping set itself {}", if is_id { "identity" } else { "reorder" }, if r.javadoc.is_none() { "lost" } else { "changed or invented" }), json!({"input": input(), "set_level_comment": q.javadoc.as_ref().map(|j| j.0.clone()), "observed": r.javadoc.as_ref().map(|j| j.0.clone())})); }
+        }
         let observed = observed_q.as_ref().map(|r| maps::from_quill(r)).map_err(|e| e.clone());
         let what = if is_id { "identity" } else { "reorder" };
         let v = judge(what, &expected, &observed);
@@ -179,6 +184,7 @@ fn main() {
         .assume("a parameter without a name in the new first namespace is a legal entry (keyed by index): Ok is accepted and compared with the reference");
     if ctx.replay.is_none() {
         meta.oblige("all 2! + 3! + 4! = 32 permutations applied", rep.seen_n("permutations") == 32);
+        meta.oblige("sets carrying a comment of their own (set level)", rep.get("set_level_comment.present") >= 100);
         for k in ["outcome.ok", "outcome.ok.identity", "outcome.err.missing_class", "outcome.err.missing_field", "outcome.err.missing_method", "outcome.err.collision_class",
             "outcome.ok.parameter_without_new_first_name", "descriptor.mentions_mapped_class", "descriptor.mentions_unmapped_class", "descriptor.array", "inverse.checked", "nontrivial.descriptor_translated"] {
             meta.oblige(format!("at least one case with {k}"), rep.get(k) > 0);
